@@ -376,6 +376,12 @@ func (e *Exec) convert(st *State, x Val, to types.Type) string {
 	if fok && tok {
 		switch {
 		case fb.Info()&types.IsInteger != 0 && tb.Info()&types.IsInteger != 0:
+			if fb.Kind() == types.Uint64 && (tb.Kind() == types.Uint8) {
+				// byte(x >> 8k) of a 64-bit value: named byte-extraction function (see byte64Fn)
+				if k, inner, ok := shiftedBy8(x.T); ok {
+					return app(e.byte64Fn(k), inner)
+				}
+			}
 			return wrapTo(x.T, to)
 		case fb.Info()&types.IsInteger != 0 && tb.Info()&types.IsFloat != 0:
 			return "(to_real " + x.T + ")"
@@ -539,7 +545,7 @@ func (e *Exec) instr(fr *Frame, st *State, in ssa.Instruction) {
 		switch t := types.Unalias(x.X.Type()).Underlying().(type) {
 		case *types.Slice:
 			e.safety(fr, st, fmt.Sprintf("(and (<= 0 %s) (< %s (s_len %s)))", idx.T, idx.T, xv.T), "index", "slice index out of range", x.Pos())
-			fr.regs[x] = Val{T: "0", Typ: x.Type(), NonNil: true, Loc: &Loc{Kind: LElem, Base: "(s_arr " + xv.T + ")", Idx: fmt.Sprintf("(+ (s_off %s) %s)", xv.T, idx.T), Typ: t.Elem()}}
+			fr.regs[x] = Val{T: "0", Typ: x.Type(), NonNil: true, Loc: &Loc{Kind: LElem, Base: "(s_arr " + xv.T + ")", Idx: fmt.Sprintf("(+ (s_off %s) %s)", xv.T, idx.T), Off: "(s_off " + xv.T + ")", Rel: idx.T, Typ: t.Elem()}}
 		case *types.Pointer:
 			at := t.Elem().Underlying().(*types.Array)
 			l := e.locOf(xv)
